@@ -11,7 +11,7 @@ ID = "C06"
 RULE = ("(a) exhaustive: every byte 0..255 as a one-character input (as str where ASCII, and as a base-encoded array) for each predefined "
         "alphabet encoding (ACGT, ACTG, ACGTn, ACTGn, ACUG, amino acids, BAM 4-bit, CIGAR operations, strand, digits); "
         "(b) Hypothesis: strings and lists of strings over each alphabet in mixed case with one foreign character inserted at every position in "
-        "turn, passed as str, list, base-encoded EncodedArray and base-encoded EncodedRaggedArray (empty rows included), plus StringEncoding "
+        "turn (for lists also characters beyond one byte whose low byte is a member, e.g. U+0141), passed as str, list, base-encoded EncodedArray and base-encoded EncodedRaggedArray (empty rows included), plus StringEncoding "
         "label lists with one foreign label; (c) every ordered pair of alphabets x strings over the source alphabet for "
         "as_encoded_array(x, target) and change_encoding(x, target), on contiguous arrays and on row-reordered views; (d) histories of 2..6 "
         "re-targetings in one process between alphabets that share a leading prefix (alphabets made for the case, and the predefined DNA/RNA ones), "
@@ -26,7 +26,7 @@ ASSUMPTIONS = [
     "StringEncoding is checked for membership and round trip only (hash collisions of the 31-bit polynomial hash are outside what random search can reach).",
 ]
 REQUIRED_CLASSES = ["byte-exhaustive", "foreign-char", "mixed-case", "ragged-with-empty-row", "pair-retarget", "pair-change_encoding",
-                    "view-input", "string-encoding", "retarget-history", "history-prefix-then-beyond", "history-encode-edit-encode-again"]
+                    "view-input", "string-encoding", "retarget-history", "history-prefix-then-beyond", "history-encode-edit-encode-again", "foreign-char-beyond-one-byte"]
 BOUNDS = {"quick": "(a) complete: 256 bytes x 10 encodings x 2 routes; (b) 1500 strings per alphabet; (c) all 90 ordered pairs x 150 strings; (d) 6000 histories",
           "thorough": "(a) complete; (b) 15000 per alphabet; (c) all pairs x 1500 strings; (d) 240000 histories"}
 BUDGET_S = {"quick": 150, "thorough": 900}
@@ -72,6 +72,8 @@ def classify(case):
         if not model_accepts(case["alpha"], txt):
             cl.append("foreign-char")
             nontrivial = True
+            if any(ord(c_) > 255 for c_ in txt):
+                cl.append("foreign-char-beyond-one-byte")
         if any(c.islower() for c in txt) and any(c.isupper() for c in txt):
             cl.append("mixed-case")
         if case["form"] == "ragged" and any(r == "" for r in rows):
@@ -214,6 +216,11 @@ def check(case, stats=None):
         except EncodingError:
             return [] if not accept else [Failure(f"C06:member-rejected:{alpha}", {"rows": rows, "form": form})]
         except Exception as e:
+            if any(ord(c_) > 127 for row_ in rows for c_ in row_):
+                # a character that is not even a byte is rejected before any alphabet lookup; any exception counts as rejection
+                if stats is not None:
+                    stats.raised_allowed["non-byte-character:" + type(e).__name__] += 1
+                return []
             return [Failure(f"C06:wrong-exception:{alpha}:{type(e).__name__}", {"rows": rows, "form": form, "error": repr(e)[:200]})]
         if not accept:
             return [Failure(f"C06:foreign-accepted:{alpha}", {"rows": rows, "form": form, "decoded": _decode_rows(r)})]
@@ -290,7 +297,10 @@ def encode_case(draw, alpha):
         # characters 32 above a non-letter member are the historically dangerous ones
         near = [chr(ord(c) + 32) for c in ALPHABETS[alpha] if c not in string.ascii_letters and ord(c) + 32 < 127]
         near += [chr(ord(c) - 32) for c in ALPHABETS[alpha] if c not in string.ascii_letters and ord(c) - 32 > 32]
-        ch = draw(st.sampled_from(foreign_pool + [c for c in near if model_upper(c) not in ALPHABETS[alpha]] * 3))
+        # characters beyond one byte whose low byte is a member of the alphabet (U+0141 -> 0x41 'A'): only a list of strings can
+        # carry them past the ASCII conversion of a plain str, and they must be rejected like any other foreign character
+        wide = [chr(256 * k + ord(c)) for c in (ALPHABETS[alpha] + ALPHABETS[alpha].lower()) for k in (1, 3)] if form in ("list",) else []
+        ch = draw(st.sampled_from(foreign_pool + [c for c in near if model_upper(c) not in ALPHABETS[alpha]] * 3 + wide * 2))
         i = draw(st.integers(0, n - 1))
         p = draw(st.integers(0, len(rows[i])))
         rows[i] = rows[i][:p] + ch + rows[i][p:]
